@@ -763,6 +763,7 @@ class loader( reader ):
                         break
 
                     # We got a non-None <ts>,<js>; if we aren't exhausted, we're now streaming!
+                    release		= False
                     if self._strict:
                         # But first, carefully release self._strict.  If we opened a file, we'll set
                         # _strict.  The last file's final timestamp will be in self._ts; say it's
@@ -775,8 +776,7 @@ class loader( reader ):
                         # the file )
                         if self.state not in (self.INITIAL, self.SWITCHING) and (
                                 self._ts is None or ts > self._ts ):
-                            log.debug( "%s Playback releasing strict for next open: %s > %s", self, ts, self._ts )
-                            self._strict	= False
+                            release	= True # ... but only if the record turns out valid (advances self._ts)
 
                     if self.state in (self.INITIAL, self.SWITCHING, self.AWAITING):
                         self.state	= self.STREAMING
@@ -815,6 +815,9 @@ class loader( reader ):
                         # A new value; if <ts> is monotonic and increasing, append <ts>,<regs> to
                         # future and generate an event with <ts>,<data>; otherwise, log/ignore it.
                         if self._ts is None or ts >= self._ts:
+                            if release:
+                                log.debug( "%s Playback releasing strict for next open: %s > %s", self, ts, self._ts )
+                                self._strict= False
                             self._ts	= ts
                             events.append( {
                                 'timestamp':	ts,
